@@ -152,6 +152,10 @@ func VerifH_serveHTTP_params() {
 		ProtoMajor:    1,
 		ProtoMinor:    1,
 	}
+	if verb == "POST" && vfBool() {
+		r.ContentLength = -1 // body of unknown length (HTTP/2 without content-length, opaque reader)
+		vfCover("unknown-length")
+	}
 	w := newFakeRW()
 	mux.ServeHTTP(w, r)
 	vfCheck(w.committed, "no response was produced")
